@@ -139,6 +139,9 @@ def run(ctx):
     # salt first + twins
     twins(ctx, P)
     hashed_subpackets_all_fed(ctx, P)
+    # the canonicalised document that enters the digest (shared with C14)
+    from rules import c14
+    c14.hasher_rules(ctx, P)
     sig.salt_fed_at_every_hasher(ctx, P)
     sig.text_mode_selection(ctx, P)
 
